@@ -31,6 +31,32 @@ def clean_stream(rnd, n, touching=False):
     return out
 
 
+def linebreak_stream(rnd):
+    """Line breaks in places where a reader may not expect them: raw inside a string or a member name (jawk reads such strings), inside
+    containers, CR alone - lines are counted by newlines wherever they are."""
+    toks = [b'"a\nb"', b'"\n"', b'{"k\n1": 1}', b'[1,\n2]', b'"x\r\ny"', b'["p\n\nq", "r"]', b'{"a":\n"b\nc"}', b'"\r"', b'17', b'[2]', b'"t"', b'null']
+    return b"".join(rnd.choice(toks) + rnd.choice([b"\n", b" ", b"\n", b"\r\n"]) for _ in range(rnd.choice([2, 3, 5, 8])))
+
+
+def sanitize(data):
+    """data with every raw CR / LF inside a string literal replaced by `X` (same length): what the strict reader can read in its place."""
+    out, instr, esc = bytearray(), False, False
+    for b in data:
+        if instr:
+            if esc:
+                esc = False
+            elif b == 0x5C:
+                esc = True
+            elif b == 0x22:
+                instr = False
+            elif b in (10, 13):
+                b = 0x58
+        elif b == 0x22:
+            instr = True
+        out.append(b)
+    return bytes(out)
+
+
 def big_stream(rnd):
     """~20 KiB with numbers, strings and arrays placed across the 8192 / 16384 byte marks (BufReader refills)."""
     out = b""
@@ -101,6 +127,8 @@ def check(tier, seed, replay=None):
             mode = rnd.choice(["plain", "plain", "select", "sort", "merge"])
             only = rnd.random() < 0.3
             data = clean_stream(rnd, rnd.choice([1, 2, 3, 5, 8])) if rnd.random() < 0.7 else RL.small_stream(rnd, 80, noise=0.3)
+            if rnd.random() < 0.15:
+                data = linebreak_stream(rnd)
             recipes.append({"kind": "same", "policy": policy, "mode": mode, "onlyObj": only, "stdin": hexs(data),
                             "delivery": rnd.choice(["chunks", "chunks", "whole", "file", "fifo"]), "chunks": [rnd.choice([1, 2, 3, 5, 8, 13, 64]) for _ in range(7)]})
         for i in range(3 if quick else 60):
@@ -116,6 +144,9 @@ def check(tier, seed, replay=None):
         for i in range(n):
             only = rnd.random() < 0.3
             data = clean_stream(rnd, rnd.choice([1, 2, 3, 5, 8]))
+            if rnd.random() < 0.2:
+                recipes.append({"kind": "ctx", "onlyObj": only, "srcs": [hexs(linebreak_stream(rnd))], "files": rnd.random() < 0.3, "wrapped": rnd.random() < 0.3, "lenient": True})
+                continue
             if rnd.random() < 0.5:
                 recipes.append({"kind": "ctx", "onlyObj": only, "srcs": [hexs(data)], "files": False, "wrapped": rnd.random() < 0.3})
             else:
@@ -218,6 +249,9 @@ def check(tier, seed, replay=None):
             names = [PL.cps(p) for p in o[0].get("paths", [])] if rc["files"] else []
             rec.update({"res": o[0]["res"], "out": list(bytes.fromhex(o[0]["out"])), "srcs": [list(bytes.fromhex(s)) for s in rc["srcs"]], "names": names})
             rec["_blobs"] = [bytes.fromhex(s) for s in rc["srcs"]]
+            if rc.get("lenient"):
+                rec["rsrcs"] = [list(sanitize(bytes.fromhex(s))) for s in rc["srcs"]]
+                rec["_blobs"] += [bytes(x) for x in rec["rsrcs"]]
         rec["case"] = ri
         recs.append(rec)
         d = dict(rc)
